@@ -239,3 +239,135 @@ Proof.
 Qed.
 
 End Stale.
+
+(* ------------------------------------------------------------------ prefixes of a canonical path *)
+Lemma prefixes_acc_prefix cs : forall cur q, In q (prefixes_acc cur cs) ->
+  exists rest, cur ++ concat (map (cons sl) cs) = q ++ rest.
+Proof.
+  induction cs as [|c0 r IH]; intros cur q Hq; [destruct Hq|]. cbn [prefixes_acc] in Hq. cbn [map concat].
+  destruct Hq as [<-|Hq].
+  - exists (concat (map (cons sl) r)). rewrite <- app_assoc. reflexivity.
+  - destruct (IH _ _ Hq) as (rest & E). exists rest. rewrite <- E, <- app_assoc. reflexivity.
+Qed.
+Lemma prefixes_prefix X q : is_rooted X = true -> clean X = X -> In q (prefixes X) -> exists rest, X = q ++ rest.
+Proof.
+  intros Hr Hc Hq. destruct (clean_abs_shape X Hr Hc) as [E HP].
+  remember (cstack X) as cs eqn:Ecs. clear Ecs Hr Hc.
+  assert (Hc : cs = [] \/ cs <> []) by (destruct cs; [now left|right; discriminate]).
+  destruct Hc as [->|Hne].
+  { subst X. cbn in Hq. destruct Hq. }
+  unfold prefixes in Hq. assert (S : psplit X = [] :: cs).
+  { rewrite E. unfold psplit, split. cbn [split_acc]. rewrite Ascii.eqb_refl. cbn [rev]. f_equal.
+    apply split_join; [exact Hne|]. eapply Forall_impl; [|exact HP]. intros a (_ & _ & _ & H). exact H. }
+  rewrite S in Hq. cbn [filter beq negb] in Hq. rewrite (filter_plain_id _ HP) in Hq.
+  destruct (prefixes_acc_prefix _ _ _ Hq) as (rest & Er). exists rest. rewrite <- Er. cbn [app].
+  rewrite E. apply pjoin_concat. exact Hne.
+Qed.
+
+Lemma move_keys_nodup g a b : beq a root = false -> beq b root = false ->
+  (forall en, In en g -> at_or_under b (fst en) = false) ->
+  NoDup (map fst g) -> NoDup (map fst (map (move_entry a b) g)).
+Proof.
+  intros Ha Hb Hno ND. induction g as [|[q m] r IH]; cbn [map]; [constructor|].
+  inversion ND as [|? ? Hn ND']; subst. constructor; [|apply IH; auto; intros en Hen; apply Hno; now right].
+  intros Hin. rewrite map_map in Hin. apply in_map_iff in Hin as ([q1 m1] & E & Hin1).
+  unfold move_entry in E. cbn [fst snd] in E.
+  assert (Hq1 : at_or_under b q1 = false) by (apply (Hno (q1, m1)); now right).
+  assert (Hq : at_or_under b q = false) by (apply (Hno (q, m)); now left).
+  destruct (at_or_under a q1) eqn:U1, (at_or_under a q) eqn:U; cbn [fst] in E.
+  - apply app_inv_head in E. apply Hn. apply in_map_iff. exists (q1, m1). split; [|exact Hin1]. cbn [fst].
+    rewrite (at_or_under_join a q1 Ha U1), (at_or_under_join a q Ha U). now rewrite E.
+  - subst q. rewrite (at_or_under_intro b _ Hb (rel_suffix_tail _ _ U1)) in Hq. discriminate.
+  - subst q1. rewrite (at_or_under_intro b _ Hb (rel_suffix_tail _ _ U)) in Hq1. discriminate.
+  - subst q1. apply Hn. apply in_map_iff. now exists (q, m1).
+Qed.
+
+Section Stale2.
+Variable c : cfgT.
+Variable f0 : fsT.
+Variable cmd : command.
+Variable e : env.
+Hypothesis Hcfg : wf_cfg c = true.
+Hypothesis Hreal : e_pretend e = false.
+Variable NS : list bytes.
+Hypothesis NS_plain : forall n, In n NS -> plain n.
+
+Local Notation J := (C11P.J c f0 cmd false).
+Local Notation Sf := (C11P.Sf c f0 cmd).
+Local Notation Phi := (C11P.Phi c f0 cmd false).
+Local Notation K := (K c f0 cmd NS).
+Local Notation TFu := (TFu c NS).
+
+Lemma KSf g : K g -> Sf g.
+Proof. intros Hg. apply (J_Sf c f0 cmd false). now apply (K_J c f0 cmd NS). Qed.
+
+Lemma K_mkdir_prefixes ps : forall g g', mkdir_prefixes g ps = FOk g' -> K g ->
+  (forall q n, In q ps -> In n NS -> under (TC c n) q = false) -> K g'.
+Proof.
+  induction ps as [|q r IH]; intros g g' H HK Hps; cbn [mkdir_prefixes] in H.
+  - now injection H as <-.
+  - assert (Hr : forall q0 n, In q0 r -> In n NS -> under (TC c n) q0 = false) by (intros; apply Hps; auto; now right).
+    destruct (stat g q) as [[|x|t]|]; try discriminate.
+    + eapply IH; eauto.
+    + destruct (lstat g q) eqn:El; [discriminate|]. eapply IH; [exact H| |exact Hr].
+      destruct HK as (HJ & ND & HT). split; [|split].
+      * apply FJ_app; [exact HJ|]. intros q0 y [Hq|[]]. discriminate.
+      * rewrite <- (app_nil_r (g ++ [(q, Dir)])), <- app_assoc. cbn [app].
+        apply NoDup_keys_insert; rewrite app_nil_r; [exact ND|].
+        intros Hin. apply in_map_iff in Hin as ([q0 nd] & E & Hin). cbn in E. subst q0.
+        unfold lstat in El. now apply (fs_get_none _ _ El nd).
+      * intros n Hn en Hen. apply in_app_or in Hen as [Hen|[<-|[]]]; [now apply (HT n Hn)|].
+        cbn [fst]. apply Hps; [now left|exact Hn].
+Qed.
+
+(* creating the directory of layer name *)
+Lemma K_mkdir_layer name : plain name -> hoare K (fs_mkdir e (layer_path c name)) (fun _ => K) Sf.
+Proof.
+  intros Hn. unfold fs_mkdir, do_op. apply h_mutate_real; [exact Hreal|exact KSf|]. unfold apply_op.
+  eapply h_bind; [apply h_get_fs|]. intros f. eapply h_bind; [apply h_get_ks|]. intros k.
+  apply h_on_fres; [intros g1 [Hg _]; now apply KSf|]. intros g1 f' [Hg ->] Hr. unfold mkdir_all in Hr.
+  eapply K_mkdir_prefixes; [exact Hr|exact Hg|]. intros q n Hq Hin.
+  destruct (under (TC c n) q) eqn:Eu; [|reflexivity]. exfalso.
+  destruct (pathjoin_abs_clean (c_layers c) name (L_rooted c Hcfg) Hn) as [R C]. fold (layer_path c name) in R, C.
+  destruct (prefixes_prefix _ _ R C Hq) as (rest & E).
+  destruct (under_ext _ _ (TC_not_root c Hcfg n) Eu) as (r & Eq). rewrite Eq in E.
+  rewrite (LP_eq c Hcfg name Hn) in E. unfold TC, PC, LP in E. rewrite <- !app_assoc in E.
+  apply app_inv_head in E. cbn [app] in E. injection E as E.
+  destruct Hn as (_ & _ & _ & Sn). now apply (noslash_tail name n _ Sn E).
+Qed.
+
+(* moving the directory of layer old to the free name new *)
+Lemma K_dir_rename old new g g' : plain old -> plain new -> old <> new -> In old NS ->
+  K g -> (forall en, In en g -> at_or_under (LP c new) (fst en) = false) -> (forall y, Phi (LP c new) y) ->
+  rename g (LP c old) (LP c new) = FOk g' -> K g'.
+Proof.
+  intros Ho Hn Hne Hin (HJ & ND & HT) Hfree Hphi Hr.
+  assert (Hl : lstat g (LP c new) = None).
+  { unfold lstat. destruct (fs_get g (LP c new)) as [nd|] eqn:Eg; [|reflexivity]. apply fs_get_in in Eg.
+    apply Hfree in Eg. cbn [fst] in Eg. rewrite at_or_under_refl in Eg. discriminate. }
+  assert (Hab : at_or_under (LP c old) (LP c new) = false).
+  { destruct (at_or_under (LP c old) (LP c new)) eqn:Eu; [|reflexivity]. exfalso. apply Hne.
+    apply (LP_under_inj c Hcfg old new (LP c new) [] Ho Hn Eu); [now rewrite app_nil_r|now left]. }
+  pose proof Hr as Hr0. destruct (rename_fresh _ _ _ _ Hr Hl Hab) as (-> & _).
+  split; [|split].
+  - eapply FJ_rename; [exact Hr0|apply Phi_stable|intros y _; apply Hphi|exact HJ].
+  - apply move_keys_nodup; auto; now apply (LP_not_root c Hcfg).
+  - intros n Hn0 en Hen. apply in_map_iff in Hen as ([q nd] & <- & Hq).
+    unfold move_entry. cbn [fst snd]. destruct (at_or_under (LP c old) q) eqn:Eu; cbn [fst]; [|apply (HT n Hn0 (q, nd) Hq)].
+    destruct (under (TC c n) (LP c new ++ rel_suffix (LP c old) q)) eqn:Et; [|reflexivity]. exfalso.
+    destruct (TC_under c Hcfg n new _ _ (NS_plain n Hn0) Hn (under_at _ _ Et) eq_refl (rel_suffix_tail _ _ Eu))
+      as (-> & rest2 & Er & Ht2).
+    pose proof (at_or_under_join _ q (LP_not_root c Hcfg old Ho) Eu) as Eq. rewrite Er in Eq.
+    destruct Ht2 as [->|[r2 ->]].
+    + (* the moved entry would be the temporary file itself, not strictly below it *)
+      rewrite Er, app_nil_r in Et. replace (LP c new ++ sl :: LCT) with (TC c new) in Et.
+      * unfold under in Et. rewrite (TC_not_root c Hcfg new) in Et. apply prefixb_spec in Et as [r Et].
+        apply (f_equal (@length _)) in Et. rewrite !app_length in Et. cbn in Et. lia.
+      * unfold TC, PC, LCT. now rewrite <- !app_assoc.
+    + assert (Hu : under (TC c old) q = true).
+      { rewrite Eq. replace (LP c old ++ sl :: LCT ++ sl :: r2) with (TC c old ++ sl :: r2).
+        - apply under_intro. now apply TC_not_root.
+        - unfold TC, PC, LCT. now rewrite <- !app_assoc. }
+      pose proof (HT old Hin (q, nd) Hq) as Hc. cbn [fst] in Hc. congruence.
+Qed.
+End Stale2.
